@@ -40,6 +40,7 @@ inductive Body where
       replaces the extension; `update_group_data` computes it from the committer's MLS state and the update) -/
   | setData (d : GData)
   | removeLeavers (who : List Nat)      -- admin's auto-commit of pending self-removals / `remove_members`
+  | addMembers (who : List Nat)         -- `add_members` (inline Add proposals; the joiners come in by their welcomes)
   deriving DecidableEq, Repr, Inhabited
 
 inductive Kind where
@@ -102,6 +103,7 @@ structure GState where
   recRelays : List Nat                  -- the group_relays table
   recNid : Nat                          -- the record's nostr_group_id: what incoming `h` tags are looked up by
   last : Option (Nat × Nat)             -- cached last message (mid, msgTs)
+  active : Bool := true                 -- false once a commit removing the own leaf was merged (record state Inactive)
   deriving DecidableEq, Repr, Inhabited
 
 structure Snap where
@@ -135,6 +137,10 @@ def eNonAdmin := 3
 def eGroup := 4
 def eUpdExts := 5      -- Error::UpdateGroupContextExts
 def eSelfUpdate := 6   -- Error::SelfUpdate
+def eOwnLeaf := 7      -- Error::OwnLeafNotFound
+def eExportSecret := 8 -- Error::ExportSecret
+def eMergePending := 10 -- Error::MergePendingCommit
+def eCreateMessage := 11 -- Error::CreateMessage
 def eOther := 9
 
 /-! ### records and rows -/
@@ -182,6 +188,7 @@ def applyBody (g : GState) (b : Body) : GState :=
   | .selfUpdate => g
   | .setData d => { g with name := d.name, desc := d.desc, admins := d.admins, relays := d.relays, nid := d.nid }
   | .removeLeavers who => { g with members := g.members.filter (fun m => !(who.contains m)), admins := g.admins }
+  | .addMembers who => { g with members := g.members ++ who.filter (fun m => !(g.members.contains m)) }
 
 def mergeCommit (maxPast : Nat) (g : GState) (e : Ev) : GState :=
   match e.kind with
@@ -267,6 +274,12 @@ def isPureSelfUpdate (b : Body) (swept : List Nat) : Bool :=
   | .selfUpdate => swept.isEmpty
   | _ => false
 
+/-- the commit removes the receiver's own leaf (by its body or by a swept leave proposal of the receiver) -/
+def removesMe (me : Nat) (b : Body) (swept : List Nat) : Bool :=
+  swept.contains me || (match b with
+                        | .removeLeavers who => who.contains me
+                        | _ => false)
+
 /-- `process_commit` after staging succeeded -/
 def processCommit (c : Cl) (e : Ev) (b : Body) (swept : List Nat) : Cl × Res :=
   if !(isAdmin c.g e.sender || isPureSelfUpdate b swept) then
@@ -275,6 +288,12 @@ def processCommit (c : Cl) (e : Ev) (b : Body) (swept : List Nat) : Cl × Res :=
     let cur := epochOf c.g.path
     let c1 := mgrCreate c cur e
     let g1 := mergeCommit c.maxPast c1.g e
+    if removesMe c.id b swept then
+      -- `handle_local_member_eviction`: the commit IS merged (the MLS group moves on and becomes inactive), but no
+      -- exporter secret is stored and the record is NOT synced: it keeps epoch and data, its state becomes Inactive;
+      -- the dedup record says Processed (not ProcessedCommit) under the record's (old) epoch
+      (setRec { c1 with g := { g1 with active := false } } e.n { state := 1, epoch := some c.g.recEpoch, hasGroup := true, mid := none }, .commit)
+    else
     let g2 := syncRec (ensureSecret g1)
     (setRec { c1 with g := g2 } e.n { state := 2, epoch := some (epochOf g2.path), hasGroup := true, mid := none }, .commit)
 
@@ -323,6 +342,9 @@ def step1 (retry : Cl → Option (Cl × Res)) (nextEv : Nat) (c : Cl) (e : Ev) :
   -- `decrypt_message`: the group is looked up by the `h` tag; not found → GroupNotFound, and the failure record has
   -- neither group id nor epoch (so a later rollback never makes it Retryable)
   if !(routes c e) then (recordFailure c e.n false none, .err eGroupNotFound)
+  -- an evicted member: `try_decrypt_with_recent_epochs` starts with `exporter_secret()?` of the CURRENT MLS epoch, which an
+  -- inactive group cannot export: every routed event fails here (the failure record carries the group id, no epoch)
+  else if !c.g.active then (recordFailure c e.n true none, .err eExportSecret)
   else
     -- `exporter_secret()` stores the current secret as a side effect of trying it
     let c := withSecret c
@@ -392,6 +414,10 @@ def deliver (c : Cl) (e : Ev) (nextEv : Nat) : Cl × Res := deliverN 3 nextEv c 
 /-- `create_message` -/
 def send (c : Cl) (n ts idnum mid msgTs tok : Nat) : Cl × Res :=
   if !c.hasGroup then (c, .err eGroup)
+  else if !c.g.active then (c, .err eOwnLeaf)       -- evicted: `own_leaf().ok_or(OwnLeafNotFound)`
+  -- openmls refuses to create an application message while proposals are queued in the own store (a received leave
+  -- proposal that no admin has committed yet, or the own one)
+  else if !c.g.props.isEmpty then (c, .err eCreateMessage)
   else
     -- openmls `create_message` works with a staged commit pending (observed; it refuses only an
     -- inactive group); the message belongs to the current, pre-commit epoch
@@ -407,12 +433,14 @@ def pendingErr : Body → Nat
   | .selfUpdate => eSelfUpdate          -- `self_update_with_new_signer(..)?`
   | .setData _ => eUpdExts              -- `update_group_context_extensions(..)?`
   | .removeLeavers _ => eGroup          -- `remove_members(..).map_err(Error::Group)`
+  | .addMembers _ => eGroup             -- `add_members(..).map_err(Error::Group)`
 
 /-- `self_update` / `update_group_data` / `remove_members` after their argument checks: the admin check
     (`is_leaf_node_admin` of the own leaf against the MLS state), then stage a commit (it sweeps the queued
     proposals: openmls commit builders consume the proposal store) and publish it -/
 def stageCommit (c : Cl) (n ts idnum : Nat) (b : Body) (needAdmin : Bool) : Cl × Res :=
   if !c.hasGroup then (c, .err eGroup)
+  else if !c.g.active then (c, .err eOwnLeaf)       -- evicted: `load_mls_signer` / `own_leaf().ok_or(OwnLeafNotFound)`
   else if needAdmin && !(isAdmin c.g c.id) then (c, .err eGroup)
   else if c.g.pending.isSome then (c, .err (pendingErr b))
   else
@@ -456,17 +484,53 @@ def updateData (c : Cl) (n ts idnum : Nat) (u : DataUpd) : Cl × Res :=
   else if adminsArgBad c.g u then (c, .err eUpdExts)
   else stageCommit c n ts idnum (.setData (applyUpd (dataOf c.g) u)) true
 
+/-- `remove_members`: own leaf, admin check, then "No matching members found to remove"; the commit names the
+    members that matched -/
+def removeMembers (c : Cl) (n ts idnum : Nat) (who : List Nat) : Cl × Res :=
+  if !c.hasGroup then (c, .err eGroup)
+  else if !c.g.active then (c, .err eOwnLeaf)
+  else if !(isAdmin c.g c.id) then (c, .err eGroup)
+  else if (who.filter (fun m => c.g.members.contains m)).isEmpty then (c, .err eGroup)
+  else stageCommit c n ts idnum (.removeLeavers (who.filter (fun m => c.g.members.contains m))) true
+
+/-- `add_members`: own leaf, admin check, "At least one relay is required to invite members" (the STORED relay
+    table), openmls refuses a key package of somebody who is a member already -/
+def addMembers (c : Cl) (n ts idnum : Nat) (who : List Nat) : Cl × Res :=
+  if !c.hasGroup then (c, .err eGroup)
+  else if !c.g.active then (c, .err eOwnLeaf)
+  else if !(isAdmin c.g c.id) then (c, .err eGroup)
+  else if c.g.recRelays.isEmpty then (c, .err eGroup)
+  else if who.any (fun m => c.g.members.contains m) then (c, .err eGroup)
+  else stageCommit c n ts idnum (.addMembers who) true
+
+/-- what a welcome gives the joiner (`process_welcome` + `accept_welcome`): the inviter's post-commit state and a
+    record in step with it — no exporter secret stored yet, no past epochs, nothing queued or consumed -/
+def joinState (g : GState) : GState :=
+  { g with secrets := [], pending := none, props := [], consumed := [], past := [], last := none, active := true }
+
+/-- the state the add commit `e` (staged on the inviter's state `g`) leads to -/
+def welcomeState (maxPast : Nat) (g : GState) (e : Ev) : GState := joinState (syncRec (mergeCommit maxPast g e))
+
+/-- a client that holds no group accepts the welcome: dedup records and configuration stay (a welcome for a group
+    the client holds already is the business of C16's model, not of this one: no-op here) -/
+def join (c : Cl) (g : GState) : Cl := if c.hasGroup then c else { c with hasGroup := true, g := g, mgr := [] }
+
 /-- `leave_group` -/
 def leave (c : Cl) (n ts idnum : Nat) : Cl × Res :=
   if !c.hasGroup then (c, .err eGroup)
+  else if !c.g.active then (c, .err eOwnLeaf)
+  else if c.g.pending.isSome then (c, .err eGroup)  -- openmls refuses while a commit is pending (`map_err(Error::Group)`)
   else
-    let g := ensureSecret c.g
+    -- openmls queues the own Remove proposal in the own proposal store as well
+    let g0 := ensureSecret c.g
+    let g := { g0 with props := (c.id :: g0.props).eraseDups }
     let e : Ev := { n := n, ts := ts, idnum := idnum, cipher := n, sender := c.id, path := g.path, kind := .leave, tag := g.recNid }
     (setRec { c with g := g } n { state := 2, epoch := some (epochOf g.path), hasGroup := true, mid := none }, .ev e)
 
 /-- `merge_pending_commit` (no snapshot is taken here) -/
 def merge (c : Cl) : Cl × Res :=
   if !c.hasGroup then (c, .err eGroup)
+  else if !c.g.active then (c, .err eMergePending)  -- openmls refuses to merge on an inactive group
   else
     match c.g.pending with
     | some p => ({ c with g := syncRec (mergeCommit c.maxPast c.g p) }, .ok)
